@@ -175,6 +175,23 @@ def rule_rename_plumbing(repo: Repo, rep: Report, rule: str) -> None:
         if fn is None:
             raise AnalysisError(f"anchor vanished: {fname}")
         txt = full(fn.node)
+        if f".Meta.{meta}" not in txt and f"'{meta}'" not in txt:
+            # the per-field work may have moved into helpers of the module (possibly passed around as function values):
+            # look at the function with its direct helpers inlined, and read the Meta access from every module function it mentions
+            from sa.flatten import flatten as _flr
+
+            fn = _flr(fn, depth=1)
+            seen_f = set()
+            todo = [fn.node]
+            for _ in range(3):
+                nxt = []
+                for nd_ in todo:
+                    for x in ast.walk(nd_):
+                        if isinstance(x, ast.Name) and x.id in conv.functions and x.id not in seen_f:
+                            seen_f.add(x.id)
+                            nxt.append(conv.functions[x.id].node)
+                todo = nxt
+            txt = full(fn.node) + " " + " ".join(full(conv.functions[q].node) for q in sorted(seen_f))
         L = Locals(fn.node)
         reads = f".Meta.{meta}" in txt or f"'{meta}'" in txt
         ov = [c for c in calls_in(fn.node) if (dotted(L.inline(c.func)) or "").split(".")[-1] == "override" and any(k.arg == "rename" for k in c.keywords)]
